@@ -47,7 +47,7 @@ LineVerdict(e) ==
     IF e.ev = "Compile" THEN
         (IF e.out.o = "err" /\ e.out.k = "Parse" THEN "skip:compile-error" ELSE "no")
     ELSE
-    LET v == Verdict(e.out, e.ast, e.inp, e.binds)
+    LET v == Verdict(e.out, IF Has(e, "want_ast") THEN e.want_ast ELSE e.ast, e.inp, e.binds)
         f1 == IF (Has(e, "inp_same") /\ ~e.inp_same) \/ (Has(e, "inp_after") /\ e.inp_after # e.inp) THEN ";input-modified" ELSE ""
         f2 == IF (Has(e, "binds_same") /\ ~e.binds_same) \/ (Has(e, "binds_after") /\ e.binds_after # e.binds) THEN ";binds-modified" ELSE ""
         f3 == IF (Has(e, "ast_same") /\ ~e.ast_same) \/ (Has(e, "ast_after") /\ e.ast_after # e.ast) THEN ";ast-modified" ELSE ""
